@@ -182,9 +182,24 @@ def eval_competition(m):
     return dict(model=m, name=cm.show(m), decided=n, mismatches=mism)
 
 
+def nested_competition_models():
+    """an optional or repeatable ##any wildcard inside a NESTED group, followed - in that group or after it - by a declaration whose name it admits"""
+    out = []
+    for ik in ('seq', 'cho'):
+        for wocc in ((0, 1), (0, None), (0, 2)):
+            for iocc in ((1, 1), (0, 1)):
+                inner = (ik, [('w', 'any', wocc), ('e', 'a', (1, 1))], iocc)
+                out.append(('seq', [inner, ('e', 'b', (1, 1))], (1, 1)))
+                out.append(('seq', [('e', 'b', (1, 1)), ('cho', [inner, ('e', 'c', (1, 1))], (1, 1))], (1, 1)))
+                out.append(('seq', [('e', 'b', (0, 1)), inner, ('e', 'c', (1, 1))], (1, 1)))
+                out.append(('seq', [('seq', [inner], (1, 1)), ('e', 'a', (0, 1))], (1, 1)))
+    return out
+
+
 def check_competition(tier, seed, open_findings):
     models = [m for m in cm.variant_models() if cm.upa_ok(m, '1.1') and not cm.upa_ok(m, '1.0')]
     sel, exhaustive = part(models, tier, seed, 2)
+    nested = nested_competition_models(); sel = list(sel) + nested; models = models + nested          # the nested shapes are few: always all of them
     res = pmap(eval_competition, sel)
     K = 'C01-xsd11-wildcard-rejects-names-of-competing-elements'
     listed = load_instances('C01_xsd11_instances.json') if K in open_findings else {}
